@@ -142,7 +142,11 @@ inductive CaseBody where
   | echo | empty | status
   deriving DecidableEq
 
-def parseItem (t : String) : Option ((List (List PatternChar) × CaseCont) × CaseBody) :=
+/-- `x` = an alternative whose expansion fails (`${u?}`): `some none` -/
+def altCharsE (t : String) : Option (Option (List PatternChar)) :=
+  if t == "x" then some none else (altChars t).map some
+
+def parseItem (t : String) : Option ((List (Option (List PatternChar)) × CaseCont) × CaseBody) :=
   match t.splitOn ":" with
   | [c, alts] => do
     let (c, b) ← (match c.toList with
@@ -151,7 +155,7 @@ def parseItem (t : String) : Option ((List (List PatternChar) × CaseCont) × Ca
       | _ => none)
     let c ← (match c with | 'b' => some CaseCont.brk | 'f' => some .fallThrough | 'c' => some .cont | _ => none)
     let b ← (match b with | 'e' => some CaseBody.echo | 'z' => some .empty | 's' => some .status | _ => none)
-    let as ← (alts.splitOn ",").mapM altChars
+    let as ← (alts.splitOn ",").mapM altCharsE
     pure ((as, c), b)
   | _ => none
 
@@ -172,14 +176,26 @@ def showCase (bodies : List CaseBody) (executed : List Nat) : String :=
   let shown := executed.filter fun i => bodies[i]? != some CaseBody.empty
   s!"run={showRun shown} st={caseStatus bodies executed}"
 
-def observeCase (subj : List Char) (itemsB : List ((List (List PatternChar) × CaseCont) × CaseBody)) :
-    String × String :=
-  let items := itemsB.map Prod.fst
+def showCaseE (bodies : List CaseBody) (r : List Nat × Bool) : String :=
+  let shown := r.1.filter fun i => bodies[i]? != some CaseBody.empty
+  if r.2 then s!"run={showRun shown} st=?" else s!"run={showRun shown} st={caseStatus bodies r.1}"
+
+/-- `subj = none`: the subject's own expansion fails (`case ${u?} in`) -/
+def observeCase (subj : Option (List Char))
+    (itemsB : List ((List (Option (List PatternChar)) × CaseCont) × CaseBody)) : String × String :=
+  let itemsE := itemsB.map Prod.fst
   let bodies := itemsB.map Prod.snd
-  let obs := showCase bodies (caseExec items subj)
-  let sitems := items.map fun (as, c) => (as.map parseAtoms, c)
-  let spec := "=" ++ showCase bodies (specCaseExec subj false 0 sitems)
-  (obs, spec)
+  match subj with
+  | none => ("run=- st=?", "-")
+  | some subj =>
+    if itemsE.any (fun it => it.1.any Option.isNone) then
+      (showCaseE bodies (caseExecEGo subj false 0 itemsE), "-")
+    else
+      let items := itemsE.map fun (as, c) => (as.filterMap id, c)
+      let obs := showCase bodies (caseExec items subj)
+      let sitems := items.map fun (as, c) => (as.map parseAtoms, c)
+      let spec := "=" ++ showCase bodies (specCaseExec subj false 0 sitems)
+      (obs, spec)
 
 /-! hand-built syntax trees (`a` cases): atoms joined by `,`; atom = `c<hex>` | `?` | `*` | `b<0|1>(<item>;…)`;
     item = `a<batom>` | `r<batom>~<batom>`; batom = `c<hex>` char | `s<hex>` `[. .]` | `e<hex>` `[= =]` | `k<hex>` `[: :]` -/
@@ -234,7 +250,8 @@ def runLine (line : String) : String :=
     | ["a", ast, t] => do
       pure (observe (← parseAst ast) (← decChars t))
     | "k" :: subj :: items => do
-      pure (observeCase (← decChars subj) (← items.mapM parseItem))
+      let sj ← (if subj == "!" then some none else (decChars subj).map some)
+      pure (observeCase sj (← items.mapM parseItem))
     | _ => none
   match r with
   | some (o, s) => o ++ "\t" ++ s
